@@ -7,7 +7,7 @@ ROOT = os.path.dirname(os.path.dirname(os.path.abspath(__file__)))
 
 
 def one(d):
-    r = subprocess.run([sys.executable, os.path.join(ROOT, "selftest", "run_patch.py"), os.path.join(d, "patch.diff")], stdout=subprocess.PIPE, stderr=subprocess.PIPE, text=True)
+    r = subprocess.run([sys.executable, os.path.join(ROOT, "selftest", "run_patch.py"), os.path.abspath(os.path.join(d, "patch.diff"))], stdout=subprocess.PIPE, stderr=subprocess.PIPE, text=True)
     try:
         return d, json.loads(r.stdout)
     except Exception:
